@@ -39,7 +39,7 @@ def point_penalty_strategy(draw, p):
     betas = [draw(st.sampled_from([0.0, 0.5, 1.0, 2.0, 4.0, 8.0])) for _ in range(p)]
     if draw(st.booleans()):
         betas = sorted(betas, reverse=True)  # large first term: several columns needed to pay for it
-    return {"penalty": {"alpha": draw(st.sampled_from([0.0, 1.0, 3.0])), "betas": betas}}
+    return {"penalty": {"alpha": draw(st.sampled_from([0.0, 1.0, 3.0])), "betas": betas, "per_param": draw(st.booleans())}}
 
 
 @st.composite
@@ -77,7 +77,19 @@ def cases(draw, tier):
             # how the data reach the detector: the same frame throughout; a frame fitted under the same labels in another
             # order; a buffer (array or frame) that held other data during an earlier predict and was refilled in place
             "mode": draw(st.sampled_from(["same", "same", "permuted_labels", "refill_array", "refill_frame"])),
-            "perm_seed": draw(st.integers(0, 10**6))}
+            "perm_seed": draw(st.integers(0, 10**6)),
+            # one callable *object* passed for both penalties (the point penalty then has to be evaluated with the point
+            # saving's number of parameters, the collective one with the collective saving's)
+            "same_callable": draw(st.integers(0, 3)) == 0,
+            # integer-valued readings of the size of event counts, handed over as an int64 frame
+            "counts_int64": exact and not craft and weak is None and draw(st.integers(0, 3)) == 0}
+    if case["same_callable"]:
+        pp = case["params"]["point_penalty"] if isinstance(case["params"]["point_penalty"], dict) else \
+            {"penalty": {"alpha": 1.0, "betas": [2.0] * p, "per_param": True}}
+        pp["penalty"]["betas"] = [pp["penalty"]["betas"][0]] * p if craft else pp["penalty"]["betas"]
+        case["params"]["point_penalty"] = pp
+        case["params"]["collective_penalty"] = pp
+        case["params"]["point_penalty_scale"] = case["params"]["collective_penalty_scale"]
     if craft:
         X = [[0.0] * p for _ in range(n)]
         beta = 2 * cscale * math.log(n_params(coll) * p)
@@ -94,6 +106,8 @@ def cases(draw, tier):
                 X[i][j] = X[i][j] * (1.0 + 0.13 * j)
         if weak is not None:
             X = [[v * weak for v in row] for row in X]
+        if case["counts_int64"]:
+            X = [[float(round((v / (1.0 + 0.13 * j) + 10) * 2e7 * (1 + j))) for j, v in enumerate(row)] for row in X]
     case["X"] = X
     return case
 
@@ -112,26 +126,30 @@ def check(case):
         colkind = "unsorted"
     labels = D.column_labels(colkind, p)
     cols = pd.RangeIndex(p) if colkind == "default" else pd.Index(labels)
-    df = pd.DataFrame(X, index=D.build_index(case["index"], n), columns=cols)
+    Xc = X.astype(np.int64) if case.get("counts_int64") else X  # whole-numbered readings may arrive as integers
+    df = pd.DataFrame(Xc, index=D.build_index(case["index"], n), columns=cols)
     with sut("MVCAPA.fit/predict/transform"):
-        det = K.build(K.detector_spec("MVCAPA", params))
+        kwargs = {k_: K.build(v_) for k_, v_ in params.items()}
+        if case.get("same_callable"):
+            kwargs["point_penalty"] = kwargs["collective_penalty"]  # the very same callable object for both
+        det = K.registry()["MVCAPA"](**kwargs)
         if mode == "permuted_labels":
             # same numbers in the same positions, labelled with the same names in another order
             perm = np.random.default_rng(case["perm_seed"]).permutation(p)
             if np.array_equal(perm, np.arange(p)):
                 perm = np.roll(perm, 1)
-            det.fit(pd.DataFrame(X, index=df.index, columns=[labels[j] for j in perm]))
+            det.fit(pd.DataFrame(Xc, index=df.index, columns=[labels[j] for j in perm]))
             y = det.predict(df)
             dense = det.transform(df)
         elif mode in ("refill_array", "refill_frame"):
             det.fit(df)
-            other = np.roll(X, 1, axis=1)[::-1].copy() if case["perm_seed"] % 2 else np.roll(X, 1, axis=1).copy()
+            other = np.roll(Xc, 1, axis=1)[::-1].copy() if case["perm_seed"] % 2 else np.roll(Xc, 1, axis=1).copy()
             buf = other if mode == "refill_array" else pd.DataFrame(other, index=df.index.copy(), columns=cols)
             det.predict(buf)
             if mode == "refill_array":
-                buf[:] = X
+                buf[:] = Xc
             else:
-                buf.iloc[:, :] = X
+                buf.iloc[:, :] = Xc
             y = det.predict(buf)
             dense = det.transform(buf)
             if mode == "refill_array":
@@ -151,7 +169,7 @@ def check(case):
     if isinstance(params["point_penalty"], dict):
         pp = params["point_penalty"]["penalty"]
         p_alpha = pp["alpha"] * params["point_penalty_scale"]
-        p_betas = np.asarray(pp["betas"], dtype=float) * params["point_penalty_scale"]
+        p_betas = np.asarray(pp["betas"], dtype=float) * params["point_penalty_scale"] * (kp if pp.get("per_param") else 1)
     else:
         p_alpha, p_betas = M.capa_penalty_factory(params["point_penalty"])(n, p, kp, params["point_penalty_scale"])
     proper = False
@@ -208,6 +226,10 @@ def check(case):
     if margin_cases:
         classes.append("margin_satisfied")
     classes.append(f"mode={mode}")
+    if case.get("same_callable"):
+        classes.append("same_callable_object_for_both_penalties")
+    if case.get("counts_int64"):
+        classes.append("int64_counts")
     classes.append("c_pen=" + (params["collective_penalty"] if isinstance(params["collective_penalty"], str) else "callable"))
     classes.append("p_pen=" + (params["point_penalty"] if isinstance(params["point_penalty"], str) else "callable"))
     return {"nontrivial": proper, "classes": classes}
